@@ -3,6 +3,7 @@
 
 mod common;
 mod crash;
+mod fault;
 mod hist;
 mod simfs;
 mod trace;
@@ -248,6 +249,117 @@ fn cmd_crash(m: &HashMap<String, String>) -> i32 {
     0
 }
 
+fn cmd_fault(m: &HashMap<String, String>) -> i32 {
+    let out = PathBuf::from(m.get("out").cloned().unwrap_or_else(|| "out/fault".into()));
+    std::fs::create_dir_all(&out).unwrap();
+    let seed0: u64 = arg(m, "seed", 1);
+    let runs: u64 = arg(m, "runs", 1);
+    let nops: usize = arg(m, "nops", 25);
+    let max_pos: u64 = arg(m, "positions", 100);
+    let large = m.contains_key("large");
+    let only: Option<(u64, bool)> = m
+        .get("idx")
+        .and_then(|i| i.parse().ok())
+        .map(|i| (i, m.contains_key("sticky")));
+    let mut results = vec![];
+    let mut chunk = 0;
+    let mut run_no = 0u64;
+    for seed in seed0..seed0 + runs {
+        let plan = fault::make_plan(seed, nops, large);
+        let hang_info = Arc::new(parking_lot::Mutex::new(String::new()));
+        let hi2 = Arc::clone(&hang_info);
+        let out2 = out.clone();
+        let wd = Watchdog::start(
+            Duration::from_secs(arg(m, "deadline", 60)),
+            Box::new(move |what| {
+                let info = hi2.lock().clone();
+                let _ = std::fs::write(
+                    out2.join("hang.json"),
+                    serde_json::to_string(&json!({"what": what, "run": info})).unwrap(),
+                );
+                std::process::exit(3);
+            }),
+        );
+        // reference run: how many faultable calls are there, and of which class
+        let reference = fault::run_fault(&plan, None, &wd, 0, true);
+        let n = reference.total_ops;
+        let mut positions: Vec<u64> = vec![];
+        if let Some((i, _)) = only {
+            positions.push(i);
+        } else if n <= max_pos {
+            positions = (0..n).collect();
+        } else {
+            let step = n as f64 / max_pos as f64;
+            let mut x = 0.0;
+            while (x as u64) < n {
+                positions.push(x as u64);
+                x += step;
+            }
+            // at least the first occurrence of every class
+            let mut seen = std::collections::HashSet::new();
+            for (i, c) in &reference.classes {
+                if seen.insert(*c) {
+                    positions.push(*i);
+                }
+            }
+            positions.sort_unstable();
+            positions.dedup();
+        }
+        let mut lines: Vec<serde_json::Value> = vec![];
+        let mut in_chunk = 0;
+        let modes: Vec<bool> = match only {
+            Some((_, s)) => vec![s],
+            None => vec![false, true],
+        };
+        for &idx in &positions {
+            for &sticky in &modes {
+                run_no += 1;
+                *hang_info.lock() = format!("seed {} idx {} sticky {}", seed, idx, sticky);
+                let o = fault::run_fault(&plan, Some((idx, sticky)), &wd, run_no, false);
+                let rpath = out.join(format!("replay_{}_{}_{}.json", seed, idx, sticky));
+                if o.status != "ok" || only.is_some() {
+                    std::fs::write(
+                        &rpath,
+                        serde_json::to_string(&json!({"driver": "fault", "seed": seed, "nops": nops,
+                            "large": large, "idx": idx, "sticky": sticky}))
+                        .unwrap(),
+                    )
+                    .unwrap();
+                }
+                results.push(json!({"seed": run_no, "wseed": seed, "idx": idx, "sticky": sticky,
+                    "status": o.status, "fired": o.fired, "events": o.lines.len(),
+                    "trace": out.join(format!("trace_{:04}.ndjson", chunk)).to_string_lossy(),
+                    "replay": rpath.to_string_lossy(), "nops": nops, "large": large,
+                    "panics": Vec::<String>::new()}));
+                lines.extend(o.lines);
+                in_chunk += 1;
+                if in_chunk >= 25 {
+                    lines.push(json!({"e": "End", "i": 0, "t": "main"}));
+                    trace::write_ndjson(&out.join(format!("trace_{:04}.ndjson", chunk)), &lines)
+                        .unwrap();
+                    lines.clear();
+                    in_chunk = 0;
+                    chunk += 1;
+                }
+            }
+        }
+        if in_chunk > 0 {
+            lines.push(json!({"e": "End", "i": 0, "t": "main"}));
+            trace::write_ndjson(&out.join(format!("trace_{:04}.ndjson", chunk)), &lines).unwrap();
+            chunk += 1;
+        }
+        wd.stop();
+        results.push(json!({"seed": 0, "wseed": seed, "status": "reference", "total_ops": n,
+                            "classes": reference.classes.iter().map(|c| c.1).collect::<std::collections::BTreeSet<_>>()}));
+    }
+    std::fs::write(
+        out.join("results.json"),
+        serde_json::to_string_pretty(&json!({"runs": results, "aborted": false})).unwrap(),
+    )
+    .unwrap();
+    0
+}
+
 fn main() {
     install_panic_hook();
     let (cmd, m) = parse_args();
@@ -257,6 +369,7 @@ fn main() {
     let code = match cmd.as_str() {
         "hist" => cmd_hist(&m),
         "crash" => cmd_crash(&m),
+        "fault" => cmd_fault(&m),
         _ => {
             eprintln!("usage: rainverif <hist> [--seed N --runs N --out DIR ...]");
             2
